@@ -30,6 +30,8 @@ MultiEdits ==
     {[op |-> o] : o \in {"EnableController", "DisableController"}}
     \cup {[op |-> o, name |-> n] : o \in {"AddControllerRepository", "AddNetworkRepository"}, n \in {"r1", "r2"}}
     \cup {[op |-> "AddRootPrincipal", p |-> "p2"], [op |-> "UpdateRootThreshold", thr |-> 2]}
+    \cup {[op |-> o, name |-> n, spec |-> sp] : o \in {"AddPropagationDirective", "UpdatePropagationDirective"}, n \in {"d1", "d2"}, sp \in {"s1", "s2"}}
+    \cup {[op |-> "DeletePropagationDirective", name |-> n] : n \in {"d1", "d2"}}
 
 Init == f = NewFile /\ r = NewRoot("p1") /\ hist = <<>>
 Next == /\ Len(hist) < MaxLen
@@ -44,7 +46,7 @@ WF == WFFile(f) /\ WFRoot(r)
 RefusedUnchanged == /\ \A e \in FileEdits : ~ApplyF(f, e, FALSE, Dev).ok => ViewF(ApplyF(f, e, FALSE, Dev).m) = ViewF(f)
                     /\ \A e \in RootEdits \cup MultiEdits : ~ApplyR(r, e, Dev).ok => ViewR(ApplyR(r, e, Dev).m) = ViewR(r)
 
-Weight == Len(r.multi.cr) * 17 + Len(r.multi.nr) * 19 + (IF r.multi.ctl THEN 23 ELSE 0) + Len(hist) * 7 + Len(f.rules) * 5 + Cardinality(f.pr) * 3 + Cardinality(r.root.ids) * 11 + Len(r.globals) * 13 + Len(r.hooks.pre) + Len(r.hooks.push) * 2
+Weight == Len(r.pd) * 29 + Len(r.multi.cr) * 17 + Len(r.multi.nr) * 19 + (IF r.multi.ctl THEN 23 ELSE 0) + Len(hist) * 7 + Len(f.rules) * 5 + Cardinality(f.pr) * 3 + Cardinality(r.root.ids) * 11 + Len(r.globals) * 13 + Len(r.hooks.pre) + Len(r.hooks.push) * 2
 Emit == IF hist # <<>> /\ Weight % EmitMod = EmitRes
         THEN PrintT(ToJson([t |-> "SCN", which |-> Which, edits |-> hist])) ELSE TRUE
 =============================================================================
